@@ -572,7 +572,10 @@ def eval_assembly(ctx, exe, mexe, cases, stats):
         if max_abs_diff([[Dg[ql[i]][0]] for i in range(N)], Dgp) > 1e-12 * max(1.0, max(r[0] for r in Dg)):
             ctx.violation(jc, "compute_laplacian D is not permuted with the samples")
         # ---- model correspondence: Laplacian with the heat values as exact rationals of the doubles
-        h = [[Fraction(math.exp(-(c["T"][a][b] * c["T"][a][b]) / c["width"])) for b in range(N)] for a in range(N)]
+        # (values rounded to the grid 2^-60 so that the exact model arithmetic stays small; the
+        # comparison tolerance below is 1e-12)
+        h = [[Fraction(round(Fraction(math.exp(-(c["T"][a][b] * c["T"][a][b]) / c["width"])) * (1 << 60)), 1 << 60)
+              for b in range(N)] for a in range(N)]
         mlines.append("LAPM %d %s %s" % (N, nbr_text(c["nb"]), qtable(h)))
         # ---- KLLE: local weights by exact rational solves
         wl = []
@@ -589,7 +592,8 @@ def eval_assembly(ctx, exe, mexe, cases, stats):
                 okw = False
                 break
             sw = sum(w)
-            wl.append([v / sw for v in w])
+            # exact solution rounded to the grid 2^-32 (keeps the model's rationals small; tolerance 1e-7)
+            wl.append([Fraction(round(v / sw * (1 << 32)), 1 << 32) for v in w])
         if okw:
             mlines.append("KLLEM %d %d %s %s %s" % (N, k, nbr_text(c["nb"]), qtable(wl), qtok(0)))
         mmap.append((ci, okw, L, Dg, W))
@@ -996,8 +1000,8 @@ def check_inventory(ctx, tres):
 # --------------------------------------------------------------------------------------------- main
 def budgets(ctx, factor=1):
     if ctx.quick:
-        return {"exact": 240 * factor, "assembly": 60 * factor, "meta": 160 * factor, "history": 24 * factor}
-    return {"exact": 3000 * factor, "assembly": 800 * factor, "meta": 2400 * factor, "history": 240 * factor}
+        return {"exact": 240 * factor, "assembly": 40 * factor, "meta": 160 * factor, "history": 24 * factor}
+    return {"exact": 3000 * factor, "assembly": 600 * factor, "meta": 2400 * factor, "history": 240 * factor}
 
 
 def generate(rng, b):
